@@ -47,8 +47,13 @@ Section Proofs.
   Notation sig_ok := (Validate.sig_ok load_pub ecdsa_verify).
   Notation validate_signature := (Validate.validate_signature load_pub ecdsa_verify).
   Notation key_loop := (Validate.key_loop load_pub ecdsa_verify).
-  Notation vloop := (Validate.vloop sha256 load_pub ecdsa_verify).
+  Notation vloop_gen := (Validate.vloop_gen sha256 load_pub ecdsa_verify).
+  Notation validate_gen := (Validate.validate_gen sha256 load_pub ecdsa_verify).
   Notation validate := (Validate.validate sha256 load_pub ecdsa_verify).
+
+  (* what the key selection of the two variants of the code demands of a key *)
+  Definition as_ok (by_asn : bool) : router_key -> sps -> Prop :=
+    if by_asn then (fun key sec => rk_asn key = sp_asn sec) else (fun _ _ => True).
 
   Lemma validate_signature_valid h g r :
     validate_signature h g r = BGPSEC_VALID <-> sig_ok (rk_spki r) h (sg_sig g) = true.
@@ -78,12 +83,25 @@ Section Proofs.
           apply validate_signature_valid in Hok. congruence.
   Qed.
 
-  Lemma key_loop_table t g h :
-    key_loop (search_by_ski t (sg_ski g)) h g BGPSEC_SUCCESS = BGPSEC_VALID <->
-    exists key, In key t /\ rk_ski key = sg_ski g /\ sig_ok (rk_spki key) h (sg_sig g) = true.
+  Definition keys_tried (by_asn : bool) (t : list router_key) (g : sgs) (sec : sps) : list router_key :=
+    if by_asn then filter (fun r => rk_asn r =? sp_asn sec) (search_by_ski t (sg_ski g))
+    else search_by_ski t (sg_ski g).
+
+  Lemma as_filter_cons by_asn t g sec secs' :
+    as_filter by_asn (search_by_ski t (sg_ski g)) (sec :: secs') = Some (keys_tried by_asn t g sec).
+  Proof. destruct by_asn; reflexivity. Qed.
+
+  Lemma key_loop_table by_asn t g sec h :
+    key_loop (keys_tried by_asn t g sec) h g
+             (if by_asn then BGPSEC_ROUTER_KEY_NOT_FOUND else BGPSEC_SUCCESS) = BGPSEC_VALID <->
+    exists key, In key t /\ rk_ski key = sg_ski g /\ as_ok by_asn key sec /\
+                sig_ok (rk_spki key) h (sg_sig g) = true.
   Proof.
-    rewrite key_loop_valid by discriminate.
-    split; intros (key & H1 & H2); exists key.
+    destruct by_asn; cbn [keys_tried as_ok]; (rewrite key_loop_valid by discriminate);
+      split; intros (key & H1 & H2); exists key.
+    - apply filter_In in H1 as [H1 H3]. apply search_by_ski_In in H1. apply Z.eqb_eq in H3. tauto.
+    - destruct H2 as (H2 & H3 & H4). split; [|exact H4].
+      apply filter_In. split; [apply search_by_ski_In; tauto|now apply Z.eqb_eq].
     - apply search_by_ski_In in H1. tauto.
     - split; [apply search_by_ski_In; tauto|tauto].
   Qed.
@@ -105,33 +123,37 @@ Section Proofs.
   Fixpoint last_len (g : sgs) (rest : list sgs) : Z :=
     match rest with [] => sig_len g | g' :: r => last_len g' r end.
 
-  Lemma vloop_unfold t s g rest (pre m : list Z) :
+  Lemma vloop_unfold by_asn t s g rest sec secs' (pre m : list Z) :
     read_for_hash s (Z.of_nat (length pre)) (st_size s - Z.of_nat (length pre)) = Some m ->
     Z.of_nat (length pre) <= st_size s ->
-    vloop t ALGORITHM_SUITE_1 s (g :: rest) (Z.of_nat (length pre)) =
-    if key_loop (search_by_ski t (sg_ski g)) (sha256 m) g BGPSEC_SUCCESS =? BGPSEC_VALID
-    then vloop t ALGORITHM_SUITE_1 s rest (wrapu 32 (Z.of_nat (length pre) + next_offset g rest))
-    else Some (key_loop (search_by_ski t (sg_ski g)) (sha256 m) g BGPSEC_SUCCESS).
+    vloop_gen by_asn t ALGORITHM_SUITE_1 s (g :: rest) (sec :: secs') (Z.of_nat (length pre)) =
+    if key_loop (keys_tried by_asn t g sec) (sha256 m) g
+                (if by_asn then BGPSEC_ROUTER_KEY_NOT_FOUND else BGPSEC_SUCCESS) =? BGPSEC_VALID
+    then vloop_gen by_asn t ALGORITHM_SUITE_1 s rest secs'
+                   (wrapu 32 (Z.of_nat (length pre) + next_offset g rest))
+    else Some (key_loop (keys_tried by_asn t g sec) (sha256 m) g
+                        (if by_asn then BGPSEC_ROUTER_KEY_NOT_FOUND else BGPSEC_SUCCESS)).
   Proof.
-    intros Hr Hle. cbn [Validate.vloop].
+    intros Hr Hle. cbn [Validate.vloop_gen].
     destruct (Z.of_nat (length pre) <=? st_size s) eqn:E; [|apply Z.leb_gt in E; lia].
-    rewrite Hr. cbn [obind]. rewrite Z.eqb_refl. reflexivity.
+    rewrite Hr. cbn [obind]. rewrite Z.eqb_refl. cbn [negb].
+    rewrite as_filter_cons. cbn [obind tl]. reflexivity.
   Qed.
 
   Lemma trailer_length d nb : Z.of_nat (length (trailer d nb)) = 5 + Z.of_nat (length nb).
   Proof. unfold trailer. rewrite !app_length, be16_length. cbn [List.length]. lia. Qed.
 
-  Lemma vloop_spec t d s nb :
+  Lemma vloop_spec by_asn t d s nb :
     Z.of_nat (length (st_buf s)) = st_size s -> st_size s < 65536 ->
     enc_nlri (to_nlri d) = n_len (b_nlri d) :: nb -> Z.of_nat (length nb) = nlri_byte_len d ->
     forall rest g secs pre tk,
       Forall wf_sgs (g :: rest) -> length secs = S (length rest) ->
       at_hop s d nb pre tk secs rest ->
-      (vloop t ALGORITHM_SUITE_1 s (g :: rest) (Z.of_nat (length pre)) = Some BGPSEC_VALID <->
-       hops_ok (fun _ _ => True) t d tk secs (g :: rest) /\ last_len g rest + 13 > nlri_byte_len d)
+      (vloop_gen by_asn t ALGORITHM_SUITE_1 s (g :: rest) secs (Z.of_nat (length pre)) = Some BGPSEC_VALID <->
+       hops_ok (as_ok by_asn) t d tk secs (g :: rest) /\ last_len g rest + 13 > nlri_byte_len d)
       /\
-      (hops_ok (fun _ _ => True) t d tk secs (g :: rest) -> last_len g rest + 13 <= nlri_byte_len d ->
-       vloop t ALGORITHM_SUITE_1 s (g :: rest) (Z.of_nat (length pre)) = None).
+      (hops_ok (as_ok by_asn) t d tk secs (g :: rest) -> last_len g rest + 13 <= nlri_byte_len d ->
+       vloop_gen by_asn t ALGORITHM_SUITE_1 s (g :: rest) secs (Z.of_nat (length pre)) = None).
   Proof.
     intros Hlen Hsz Henc Hnb.
     induction rest as [|g' rest IH]; intros g secs pre tk Wf Hl Hat.
@@ -149,15 +171,16 @@ Section Proofs.
       inversion Wf as [|? ? Wg _]; subst.
       assert (Hsl : 0 <= sig_len g < 65536) by (destruct Wg; unfold sig_len; lia).
       assert (Hnbl : 0 <= nlri_byte_len d) by lia.
-      rewrite (vloop_unfold t s g [] pre m Hr) by lia.
+      rewrite (vloop_unfold by_asn t s g [] sec [] pre m Hr) by lia.
       rewrite (next_offset_last g Wg), wrapu32_small by lia.
-      cbn [hops_ok last_len Validate.vloop].
-      destruct (Z.eqb_spec (key_loop (search_by_ski t (sg_ski g)) (sha256 m) g BGPSEC_SUCCESS) BGPSEC_VALID)
-        as [K|K].
-      + apply key_loop_table in K. destruct K as (key & K1 & K2 & K3).
+      cbn [hops_ok last_len Validate.vloop_gen].
+      destruct (Z.eqb_spec (key_loop (keys_tried by_asn t g sec) (sha256 m) g
+                                     (if by_asn then BGPSEC_ROUTER_KEY_NOT_FOUND else BGPSEC_SUCCESS))
+                           BGPSEC_VALID) as [K|K].
+      + apply key_loop_table in K. destruct K as (key & K1 & K2 & Kas & K3).
         assert (Hh : exists m0 key0,
                    message tk [sec] [] (b_alg d) (b_afi d) (b_safi d) (to_nlri d) = Some m0 /\
-                   In key0 t /\ rk_ski key0 = sg_ski g /\ True /\
+                   In key0 t /\ rk_ski key0 = sg_ski g /\ as_ok by_asn key0 sec /\
                    sig_ok (rk_spki key0) (sha256 m0) (sg_sig g) = true)
           by (exists m, key; auto).
         destruct (Z.of_nat (length pre) + (sig_len g + 28) <=? st_size s) eqn:E.
@@ -166,9 +189,9 @@ Section Proofs.
           split; [split; [exact Hh|exact I]|lia].
       + split.
         * split; [intros H; injection H as H; congruence|].
-          intros [[(m0 & key & M & K1 & K2 & _ & K3) _] _].
+          intros [[(m0 & key & M & K1 & K2 & Kas & K3) _] _].
           exfalso. apply K. apply key_loop_table. exists key. rewrite Hm in M. injection M as <-. auto.
-        * intros [(m0 & key & M & K1 & K2 & _ & K3) _] _.
+        * intros [(m0 & key & M & K1 & K2 & Kas & K3) _] _.
           exfalso. apply K. apply key_loop_table. exists key. rewrite Hm in M. injection M as <-. auto.
     - (* an inner Signature Segment: move to the next hop *)
       destruct secs as [|sec secs]; [discriminate|].
@@ -181,17 +204,18 @@ Section Proofs.
       assert (Hb : Z.of_nat (length pre') <= st_size s).
       { rewrite <- Hlen. unfold at_hop in Hat'. rewrite Hat', app_length. lia. }
       assert (Hsl : 0 <= sig_len g') by (unfold sig_len; lia).
-      rewrite (vloop_unfold t s g (g' :: rest) pre m Hr) by lia.
+      rewrite (vloop_unfold by_asn t s g (g' :: rest) sec secs pre m Hr) by lia.
       rewrite (next_offset_next g g' rest Wg'), wrapu32_small by lia. rewrite <- Hpre'.
       cbn [List.length] in Hl.
       destruct (IH g' secs pre' (sp_asn sec) Wf' ltac:(lia) Hat') as [IH1 IH2].
-      cbn [hops_ok last_len]. fold (hops_ok (fun _ _ => True) t d (sp_asn sec) secs (g' :: rest)).
-      destruct (Z.eqb_spec (key_loop (search_by_ski t (sg_ski g)) (sha256 m) g BGPSEC_SUCCESS) BGPSEC_VALID)
-        as [K|K].
-      + apply key_loop_table in K. destruct K as (key & K1 & K2 & K3).
+      cbn [hops_ok last_len]. fold (hops_ok (as_ok by_asn) t d (sp_asn sec) secs (g' :: rest)).
+      destruct (Z.eqb_spec (key_loop (keys_tried by_asn t g sec) (sha256 m) g
+                                     (if by_asn then BGPSEC_ROUTER_KEY_NOT_FOUND else BGPSEC_SUCCESS))
+                           BGPSEC_VALID) as [K|K].
+      + apply key_loop_table in K. destruct K as (key & K1 & K2 & Kas & K3).
         assert (Hh : exists m0 key0,
                    message tk (sec :: secs) (g' :: rest) (b_alg d) (b_afi d) (b_safi d) (to_nlri d) = Some m0 /\
-                   In key0 t /\ rk_ski key0 = sg_ski g /\ True /\
+                   In key0 t /\ rk_ski key0 = sg_ski g /\ as_ok by_asn key0 sec /\
                    sig_ok (rk_spki key0) (sha256 m0) (sg_sig g) = true)
           by (exists m, key; auto).
         split.
@@ -199,9 +223,9 @@ Section Proofs.
         * intros [_ H] Hlast. apply IH2; assumption.
       + split.
         * split; [intros H; injection H as H; congruence|].
-          intros [[(m0 & key & M & K1 & K2 & _ & K3) _] _].
+          intros [[(m0 & key & M & K1 & K2 & Kas & K3) _] _].
           exfalso. apply K. apply key_loop_table. exists key. rewrite Hm in M. injection M as <-. auto.
-        * intros [(m0 & key & M & K1 & K2 & _ & K3) _] _.
+        * intros [(m0 & key & M & K1 & K2 & Kas & K3) _] _.
           exfalso. apply K. apply key_loop_table. exists key. rewrite Hm in M. injection M as <-. auto.
   Qed.
 
@@ -240,9 +264,9 @@ Section Proofs.
   Definition last_sig_len (d : bgpsec_c) : Z :=
     match b_sigs d with [] => 0 | g :: rest => last_len g rest end.
 
-  Lemma validate_pre d t : validate d t = Some BGPSEC_VALID -> preconds d.
+  Lemma validate_pre by_asn d t : validate_gen by_asn d t = Some BGPSEC_VALID -> preconds d.
   Proof.
-    unfold Validate.validate, preconds.
+    unfold Validate.validate_gen, preconds.
     destruct (b_path d) as [|sec secs]; [discriminate|].
     destruct (b_sigs d) as [|g rest]; [discriminate|].
     destruct (Z.eqb_spec (b_path_len d) (b_sigs_len d)) as [E1|E1]; cbn [negb]; [|discriminate].
@@ -254,13 +278,13 @@ Section Proofs.
       intros _. repeat split; auto; discriminate.
   Qed.
 
-  Lemma validate_after_pre d t : preconds d ->
-    validate d t =
+  Lemma validate_after_pre by_asn d t : preconds d ->
+    validate_gen by_asn d t =
     let rk := check_router_keys (b_sigs d) t in
     if negb (rk =? BGPSEC_SUCCESS) then Some rk
-    else do s <- aligned_stream d VALIDATION; vloop t (b_alg d) s (b_sigs d) 0.
+    else do s <- aligned_stream d VALIDATION; vloop_gen by_asn t (b_alg d) s (b_sigs d) (b_path d) 0.
   Proof.
-    intros (Hp & Hs & Hc & Ha & Hf). unfold Validate.validate.
+    intros (Hp & Hs & Hc & Ha & Hf). unfold Validate.validate_gen.
     destruct (b_path d) as [|sec secs]; [congruence|].
     destruct (b_sigs d) as [|g rest]; [congruence|].
     rewrite Hc, Z.eqb_refl. cbn [negb]. unfold has_algorithm_suite. rewrite Ha, Z.eqb_refl. cbn [negb].
@@ -277,26 +301,27 @@ Section Proofs.
   Qed.
 
   (* The decision, with the one side condition the loop's exit test needs: after the last
-     Signature Segment, offset must have passed the end of the stream. *)
-  Lemma validate_decision d t :
+     Signature Segment, offset must have passed the end of the stream.  For both variants of the
+     key selection at once. *)
+  Lemma validate_gen_decision by_asn d t :
     wf_data d -> counts_ok d -> total_bytes d VALIDATION < 65536 ->
-    (validate d t = Some BGPSEC_VALID <->
-     preconds d /\ path_valid_any_as sha256 sig_ok t (to_update d) /\
+    (validate_gen by_asn d t = Some BGPSEC_VALID <->
+     preconds d /\ path_valid_gen sha256 sig_ok (as_ok by_asn) t (to_update d) /\
      last_sig_len d + 13 > nlri_byte_len d)
     /\
-    (preconds d -> path_valid_any_as sha256 sig_ok t (to_update d) ->
-     last_sig_len d + 13 <= nlri_byte_len d -> validate d t = None).
+    (preconds d -> path_valid_gen sha256 sig_ok (as_ok by_asn) t (to_update d) ->
+     last_sig_len d + 13 <= nlri_byte_len d -> validate_gen by_asn d t = None).
   Proof.
     intros Wf Hc Hsmall.
     assert (Main : preconds d ->
-      (validate d t = Some BGPSEC_VALID <->
-       path_valid_any_as sha256 sig_ok t (to_update d) /\ last_sig_len d + 13 > nlri_byte_len d)
-      /\ (path_valid_any_as sha256 sig_ok t (to_update d) ->
-          last_sig_len d + 13 <= nlri_byte_len d -> validate d t = None)).
-    { intros Hpre. rewrite (validate_after_pre d t Hpre).
+      (validate_gen by_asn d t = Some BGPSEC_VALID <->
+       path_valid_gen sha256 sig_ok (as_ok by_asn) t (to_update d) /\ last_sig_len d + 13 > nlri_byte_len d)
+      /\ (path_valid_gen sha256 sig_ok (as_ok by_asn) t (to_update d) ->
+          last_sig_len d + 13 <= nlri_byte_len d -> validate_gen by_asn d t = None)).
+    { intros Hpre. rewrite (validate_after_pre by_asn d t Hpre).
       destruct Hpre as (Hp & Hs & Hcnt & Ha & Hf).
       assert (Hl : length (b_path d) = length (b_sigs d)) by (destruct Hc as (C1 & C2 & C3 & C4); lia).
-      unfold path_valid_any_as, hop_valid_any_as, hop_valid_gen, last_sig_len, digest_for_hop, to_update.
+      unfold path_valid_gen, hop_valid_gen, last_sig_len, digest_for_hop, to_update.
       cbn [u_target u_secs u_sigs u_alg u_afi u_safi u_nlri].
       destruct (b_sigs d) as [|g rest] eqn:Es; [congruence|].
       assert (Ht : tmp_sig_of d VALIDATION = Some rest) by (cbn; rewrite Es; reflexivity).
@@ -308,64 +333,75 @@ Section Proofs.
       assert (Wg : Forall wf_sgs (g :: rest))
         by (destruct Wf as (_ & _ & Wg & _); rewrite Es in Wg; exact Wg).
       assert (Hat : at_hop s d nb [] (b_target_as d) (b_path d) rest) by exact Hb.
-      destruct (vloop_spec t d s nb Hlen ltac:(lia) Henc Hnbl rest g (b_path d) [] (b_target_as d) Wg
+      destruct (vloop_spec by_asn t d s nb Hlen ltac:(lia) Henc Hnbl rest g (b_path d) [] (b_target_as d) Wg
                            ltac:(cbn in Hl; lia) Hat) as [V1 V2].
       cbn [List.length Z.of_nat] in V1, V2.
-      pose proof (hops_ok_iff (fun _ _ => True) t d (g :: rest) (b_path d) (b_target_as d) Hl) as HI.
-      assert (Hiff : hops_ok (fun _ _ => True) t d (b_target_as d) (b_path d) (g :: rest) <->
+      pose proof (hops_ok_iff (as_ok by_asn) t d (g :: rest) (b_path d) (b_target_as d) Hl) as HI.
+      assert (Hiff : hops_ok (as_ok by_asn) t d (b_target_as d) (b_path d) (g :: rest) <->
                      (b_path d <> [] /\ length (b_path d) = length (g :: rest) /\
                       forall k, (k < length (g :: rest))%nat ->
                         exists sec sg m key,
                           nth_error (b_path d) k = Some sec /\ nth_error (g :: rest) k = Some sg /\
                           digest_for_hop_rec k (b_target_as d) (b_path d) (g :: rest)
                                              (b_alg d) (b_afi d) (b_safi d) (to_nlri d) = Some m /\
-                          In key t /\ rk_ski key = sg_ski sg /\ True /\
+                          In key t /\ rk_ski key = sg_ski sg /\ as_ok by_asn key sec /\
                           sig_ok (rk_spki key) (sha256 m) (sg_sig sg) = true)).
       { rewrite HI. split; [intros H; auto|intros (_ & _ & H); exact H]. }
       destruct (check_router_keys_cases (g :: rest) t) as [[R1 R2]|[R1 R2]]; rewrite R1.
       - cbn [negb Z.eqb BGPSEC_SUCCESS]. rewrite <- Hiff. rewrite Hal. cbn [obind]. rewrite Ha.
         split; [exact V1|exact V2].
       - cbn [negb Z.eqb BGPSEC_SUCCESS BGPSEC_ROUTER_KEY_NOT_FOUND]. rewrite <- Hiff.
-        assert (No : ~ hops_ok (fun _ _ => True) t d (b_target_as d) (b_path d) (g :: rest)).
+        assert (No : ~ hops_ok (as_ok by_asn) t d (b_target_as d) (b_path d) (g :: rest)).
         { intros H. apply hops_have_keys in H. apply Exists_exists in R2 as (x & X1 & X2).
           rewrite Forall_forall in H. exact (H x X1 X2). }
         split; [split; [discriminate|tauto]|tauto]. }
     split.
     - split.
-      + intros H. pose proof (validate_pre d t H) as Hpre. split; [exact Hpre|].
+      + intros H. pose proof (validate_pre by_asn d t H) as Hpre. split; [exact Hpre|].
         apply (proj1 (Main Hpre)). exact H.
       + intros (Hpre & H). apply (proj1 (Main Hpre)). exact H.
     - intros Hpre. apply (proj2 (Main Hpre)).
   Qed.
 
+  (* /repo as it stands *)
+  Lemma validate_decision d t :
+    wf_data d -> counts_ok d -> total_bytes d VALIDATION < 65536 ->
+    (validate d t = Some BGPSEC_VALID <->
+     preconds d /\ path_valid_any_as sha256 sig_ok t (to_update d) /\
+     last_sig_len d + 13 > nlri_byte_len d)
+    /\
+    (preconds d -> path_valid_any_as sha256 sig_ok t (to_update d) ->
+     last_sig_len d + 13 <= nlri_byte_len d -> validate d t = None).
+  Proof. exact (validate_gen_decision false d t). Qed.
+
   (* C11_codes: the precondition failures, in the order the C tests them *)
-  Lemma validate_codes d t :
-    (b_path d = [] \/ b_sigs d = [] -> validate d t = Some BGPSEC_INVALID_ARGUMENTS) /\
+  Lemma validate_gen_codes by_asn d t :
+    (b_path d = [] \/ b_sigs d = [] -> validate_gen by_asn d t = Some BGPSEC_INVALID_ARGUMENTS) /\
     (b_path d <> [] -> b_sigs d <> [] -> b_path_len d <> b_sigs_len d ->
-     validate d t = Some BGPSEC_WRONG_SEGMENT_COUNT) /\
+     validate_gen by_asn d t = Some BGPSEC_WRONG_SEGMENT_COUNT) /\
     (b_path d <> [] -> b_sigs d <> [] -> b_path_len d = b_sigs_len d ->
-     b_alg d <> ALGORITHM_SUITE_1 -> validate d t = Some BGPSEC_UNSUPPORTED_ALGORITHM_SUITE) /\
+     b_alg d <> ALGORITHM_SUITE_1 -> validate_gen by_asn d t = Some BGPSEC_UNSUPPORTED_ALGORITHM_SUITE) /\
     (b_path d <> [] -> b_sigs d <> [] -> b_path_len d = b_sigs_len d -> b_alg d = ALGORITHM_SUITE_1 ->
      n_afi (b_nlri d) <> BGPSEC_IPV4 -> n_afi (b_nlri d) <> BGPSEC_IPV6 ->
-     validate d t = Some BGPSEC_UNSUPPORTED_AFI) /\
+     validate_gen by_asn d t = Some BGPSEC_UNSUPPORTED_AFI) /\
     (preconds d -> (exists g, In g (b_sigs d) /\ forall key, In key t -> rk_ski key <> sg_ski g) ->
-     validate d t = Some BGPSEC_ROUTER_KEY_NOT_FOUND).
+     validate_gen by_asn d t = Some BGPSEC_ROUTER_KEY_NOT_FOUND).
   Proof.
     split; [|split; [|split; [|split]]].
-    - unfold Validate.validate. intros [-> | ->]; [reflexivity|]. destruct (b_path d); reflexivity.
-    - intros Hp Hs Hc. unfold Validate.validate.
+    - unfold Validate.validate_gen. intros [-> | ->]; [reflexivity|]. destruct (b_path d); reflexivity.
+    - intros Hp Hs Hc. unfold Validate.validate_gen.
       destruct (b_path d); [congruence|]. destruct (b_sigs d); [congruence|].
       destruct (Z.eqb_spec (b_path_len d) (b_sigs_len d)); [congruence|reflexivity].
-    - intros Hp Hs Hc Ha. unfold Validate.validate, has_algorithm_suite.
+    - intros Hp Hs Hc Ha. unfold Validate.validate_gen, has_algorithm_suite.
       destruct (b_path d); [congruence|]. destruct (b_sigs d); [congruence|].
       rewrite Hc, Z.eqb_refl. cbn [negb].
       destruct (Z.eqb_spec (b_alg d) ALGORITHM_SUITE_1); [congruence|reflexivity].
-    - intros Hp Hs Hc Ha H4 H6. unfold Validate.validate, has_algorithm_suite.
+    - intros Hp Hs Hc Ha H4 H6. unfold Validate.validate_gen, has_algorithm_suite.
       destruct (b_path d); [congruence|]. destruct (b_sigs d); [congruence|].
       rewrite Hc, Ha, !Z.eqb_refl. cbn [negb].
       destruct (Z.eqb_spec (n_afi (b_nlri d)) BGPSEC_IPV4); [congruence|].
       destruct (Z.eqb_spec (n_afi (b_nlri d)) BGPSEC_IPV6); [congruence|reflexivity].
-    - intros Hpre (g & Hin & Hno). rewrite (validate_after_pre d t Hpre).
+    - intros Hpre (g & Hin & Hno). rewrite (validate_after_pre by_asn d t Hpre).
       destruct (check_router_keys_cases (b_sigs d) t) as [[R1 R2]|[R1 R2]]; rewrite R1.
       + exfalso. rewrite Forall_forall in R2. apply (R2 g Hin).
         destruct (search_by_ski t (sg_ski g)) as [|key r] eqn:E; [reflexivity|].
@@ -384,7 +420,7 @@ Section Proofs.
   Proof.
     intros (H1 & H2 & H3). split; [exact H1|]. split; [exact H2|]. intros k Hk.
     destruct (H3 k Hk) as (sec & sg & m & key & A & B & C & D & E & _ & F).
-    exists sec, sg, m, key. auto 10.
+    exists sec, sg, m, key. repeat split; assumption.
   Qed.
 
   Lemma path_valid_of_any_as t u : no_foreign_keys t u ->
@@ -392,7 +428,7 @@ Section Proofs.
   Proof.
     intros Hno (H1 & H2 & H3). split; [exact H1|]. split; [exact H2|]. intros k Hk.
     destruct (H3 k Hk) as (sec & sg & m & key & A & B & C & D & E & _ & F).
-    exists sec, sg, m, key. pose proof (Hno k sec sg key A B D E). auto 10.
+    exists sec, sg, m, key. pose proof (Hno k sec sg key A B D E). repeat split; assumption.
   Qed.
 
   (* ---- "changing any signed bit makes the answer not VALID" -----------------------
